@@ -83,7 +83,11 @@ class TALFileHandler(FileHandler):
             self.entry.populatefromfs(self.getselector(), self.statresult, vfs=self.vfs)
             assert self.entry.getencoding() == "tal.TALFileHandler"
             # Remove the TAL encoding and revert to default.
-            self.entry.mimetype = self.entry.getencodedmimetype()
+            # A name without a (known) inner extension, like x.tal, has no
+            # type of its own: it is served as the default type.
+            self.entry.mimetype = self.entry.getencodedmimetype() or self.config.get(
+                "GopherEntry", "defaultmimetype"
+            )
             self.entry.encodedmimetype = None
             self.entry.realencoding = self.entry.encoding
             self.entry.encoding = None
